@@ -14,6 +14,9 @@ from .transfer_common import build_model
 
 
 def check(ck: Checker) -> None:
+    from .C07 import check_fetch_verify
+
+    check_fetch_verify(ck, "C15.add")
     ck.decided = [
         "C15.add: in HashFileDB.add the copy precedes the verify/protect loop, which precedes the hash-state rows; nothing vouches for an object before the call that creates it returned",
         "C15.check: check() protects an object only after its hash compared equal, deletes on mismatch",
